@@ -3,6 +3,8 @@
 package onchain
 
 import (
+	"github.com/elementsproject/glightning/gbitcoin"
+
 	"errors"
 	"math"
 	"regexp"
@@ -294,4 +296,55 @@ func H_C30_parseSegment() {
 		want = int(vals[idx])
 	}
 	zzverif.Assert(got == want, "C30.segment_value")
+}
+
+// vBitcoind answers the three calls of the bitcoind-backed estimator.
+type vBitcoind struct {
+	feeRate float64 // BTC/kB as estimatesmartfee reports it
+	fail    bool
+	calls   int
+}
+
+func (b *vBitcoind) GetMempoolInfo() (*gbitcoin.MempoolInfo, error) {
+	return nil, errors.New("not used: Start() is not called")
+}
+func (b *vBitcoind) EstimateFee(blocks uint32, mode string) (*gbitcoin.FeeResponse, error) {
+	b.calls++
+	if b.fail {
+		return nil, errors.New("estimatesmartfee failed")
+	}
+	return &gbitcoin.FeeResponse{FeeRate: b.feeRate}, nil
+}
+func (b *vBitcoind) Ping() (bool, error) { return true, nil }
+
+// H_C30_bitcoindEstimatorFallsBack: the bitcoind-backed estimator (what the CLN plugin wires in) built by its
+// real constructor from a configured fallback rate and a floor: when estimatesmartfee fails, or answers with
+// no estimate (fee rate 0: "insufficient data"), the rate it hands on is the configured fallback (or the floor
+// if that is higher); an estimate below the floor is raised to the floor; any other estimate is passed on
+// converted from BTC/kB to sat/kW.  The rate never is below the floor.
+// Bounds: estimates from {none, 0.00000100, 0.00001000, 0.00025000, 0.01 BTC/kB}, fallback and floor
+// arbitrary in 1..2^40 sat/kW.
+func H_C30_bitcoindEstimatorFallsBack() {
+	fallback, floor := btcutil.Amount(zzverif.I64("fallback")), btcutil.Amount(zzverif.I64("floor"))
+	zzverif.Assume(fallback >= 1 && fallback <= 1<<40 && floor >= 1 && floor <= 1<<40)
+	rates := []float64{0, 0.000001, 0.00001, 0.00025, 0.01}
+	satPerKw := []btcutil.Amount{0, 25, 250, 6250, 250000}
+	k := zzverif.Choice("estimate", len(rates))
+	b := &vBitcoind{feeRate: rates[k], fail: zzverif.Bool("estimate.err")}
+	est, err := NewGBitcoindEstimator(b, "ECONOMICAL", fallback, floor)
+	zzverif.Assert(err == nil && est != nil, "C30.estimator_constructed")
+	if est == nil {
+		return
+	}
+	got, gerr := est.EstimateFeePerKW(6)
+	zzverif.Assert(gerr == nil && b.calls == 1, "C30.estimator_asks_once_and_never_fails")
+	zzverif.Assert(got >= floor, "C30.estimator_rate_at_least_floor")
+	want := satPerKw[k]
+	if b.fail || want == 0 {
+		want = fallback
+	}
+	if want < floor {
+		want = floor
+	}
+	zzverif.Assert(got == want, "C30.estimator_falls_back_to_the_configured_rate")
 }
